@@ -1093,6 +1093,11 @@ void ConstrainedFDLayout::moveTo(const vpsc::Dim dim, Position& target) {
         moveBoundingBoxes();
     }
     updateCompoundConstraints(dim, ccs);
+    if(unsatisfiable.size()==2) {
+        // The positions set here are the ones the caller sees, so any
+        // constraint this projection had to drop must be reported too.
+        checkUnsatisfiable(cs,unsatisfiable[dim]);
+    }
     for_each(vs.begin(),vs.end(),delete_object());
     for_each(cs.begin(),cs.end(),delete_object());
 }
